@@ -794,7 +794,29 @@ pub fn csr_family(rng: &mut Rng) -> Shape {
         let csr = csrs[rng.below(2)];
         let a = regs[rng.below(regs.len())];
         let b = regs[rng.below(regs.len())];
-        match rng.below(14) {
+        // (pointer holders that are *not* refreshed in front of each access: a pointer read from the CSR
+        // earlier stays what it was when the CSR is written, here or in a callee)
+        let holder = *rng.pick(&[9u8, 18, 7]);
+        match rng.below(18) {
+            17 => {
+                // the whole situation at once: pointer read, CSR replaced (here or in a callee), new pointer
+                // read, a constant stored through the new one, the word behind the old one loaded
+                let off = *rng.pick(&[0, 4, 8]);
+                p.push(Ins::Csrrs { rd: holder, csr: 0x40, rs1: ZERO });
+                if with_call && rng.chance(0.5) {
+                    p.push(Ins::call("scramble"));
+                } else {
+                    p.push(Ins::La { rd: 30, label: "other".into() });
+                    p.push(Ins::Csrrw { rd: ZERO, csr: 0x40, rs1: 30 });
+                }
+                p.push(Ins::Csrrs { rd: 28, csr: 0x40, rs1: ZERO });
+                p.push(Ins::li(29, rng.range(20, 90) as i32));
+                p.push(Ins::Store { w: StoreW::W, rs2: 29, off, base: 28 });
+                p.push(Ins::Load { w: LoadW::W, rd: b, off, base: holder });
+            }
+            14 => p.push(Ins::Csrrs { rd: holder, csr: 0x40, rs1: ZERO }),
+            15 => p.push(Ins::Store { w: StoreW::W, rs2: b, off: *rng.pick(&[0, 4, 8]), base: holder }),
+            16 => p.push(Ins::Load { w: LoadW::W, rd: b, off: *rng.pick(&[0, 4, 8]), base: holder }),
             0 => p.push(Ins::Csrrwi { rd: *rng.pick(&[ZERO, a]), csr, imm: rng.range(0, 31) as i32 }),
             1 => p.push(Ins::Csrrw { rd: ZERO, csr, rs1: a }),
             2 => p.push(Ins::Csrrw { rd: a, csr, rs1: a }),
